@@ -17,6 +17,10 @@ pub struct CloneCase {
     pub pre: usize,
     pub hist: Vec<Op>,
     pub cont: Vec<Op>,
+    /// Some(h): use `Clone::clone_from` into an existing generator (same constructor, history
+    /// `h`, i.e. usually another position) instead of `clone()`
+    #[serde(default)]
+    pub into_existing: Option<Vec<Op>>,
 }
 
 #[derive(Clone, Debug, Serialize, Deserialize)]
@@ -85,9 +89,17 @@ pub fn check_clone(c: &CloneCase) -> CheckResult {
     let info = c.spec.ty().info();
     let mut g = c.spec.build();
     run(&mut *g, c.pre, &c.hist);
-    let mut cl = g.clone_box();
+    let mut cl = match &c.into_existing {
+        None => g.clone_box(),
+        Some(h) => {
+            let mut t = c.spec.build();
+            run(&mut *t, 0, h);
+            t.clone_from_dyn(&*g);
+            t
+        }
+    };
     if info.eq && cl.eq_dyn(&*g) != Some(true) {
-        return Err(Fail::new(format!("C10:clone-ne:{}", info.name), "clone() does not compare equal to the original"));
+        return Err(Fail::new(format!("C10:clone-ne:{}", info.name), if c.into_existing.is_some() { "after clone_from() the target does not compare equal to the source" } else { "clone() does not compare equal to the original" }));
     }
     if let Err((k, va, vb)) = lockstep(&mut *g, &mut *cl, &c.cont) {
         return Err(Fail::new(format!("C10:clone-future:{}", info.name), format!("clone and original return different values at continuation op #{}", k)).exp_act(va, vb));
@@ -100,6 +112,7 @@ pub fn check_clone(c: &CloneCase) -> CheckResult {
         .class(c.spec.class())
         .class_if(c.hist.iter().any(|o| matches!(o, Op::Jump | Op::LongJump)), "hist-has-jump")
         .class_if(c.cont.iter().any(|o| matches!(o, Op::Jump | Op::LongJump)), "cont-has-jump")
+        .class_if(c.into_existing.is_some(), "clone_from")
         .class_if(c.hist.last() == Some(&Op::U32), "cloned-after-u32"))
 }
 
@@ -240,6 +253,38 @@ pub fn check_pair(c: &PairCase) -> CheckResult {
         }))
 }
 
+#[derive(Clone, Debug, Serialize, Deserialize)]
+pub struct BitPairCase {
+    pub ty: Ty,
+    pub base: gens::Seed,
+    pub i: usize,
+    pub j: usize,
+}
+
+pub fn check_bit_pair(c: &BitPairCase) -> CheckResult {
+    let mut s2 = c.base.bytes.clone();
+    s2[c.i / 8] ^= 1 << (c.i % 8);
+    if c.j != c.i {
+        s2[c.j / 8] ^= 1 << (c.j % 8);
+    }
+    let mut a = adapter::from_seed(c.ty, &c.base.bytes);
+    let mut b = adapter::from_seed(c.ty, &s2);
+    // one step first, so that the difference has moved through the state
+    let eq0 = a.eq_dyn(&*b);
+    let (x0, y0) = (a.next_native(), b.next_native());
+    let eq1 = a.eq_dyn(&*b);
+    let mut differs = x0 != y0;
+    for _ in 0..6 {
+        if a.next_native() != b.next_native() {
+            differs = true;
+        }
+    }
+    if (eq0 == Some(true) || eq1 == Some(true)) && differs {
+        return Err(Fail::new(format!("C10:eq-future:{}:seed-bit-pair", c.ty.name()), format!("two generators whose seeds differ in bit(s) {} / {} compare equal but return different values", c.i, c.j)));
+    }
+    Ok(CaseInfo::new(c.i != c.j).class(if c.i == c.j { "1-bit" } else { "2-bit" }).class_if(!differs, "same-first-outputs"))
+}
+
 pub fn check_hc_pos(c: &HcPosCase) -> CheckResult {
     let mut a = adapter::from_seed(Ty::Hc128, &c.seed.bytes);
     let mut b = adapter::from_seed(Ty::Hc128, &c.seed.bytes);
@@ -282,6 +327,16 @@ pub fn check_core(c: &CoreCase) -> CheckResult {
                 a.generate(&mut ra);
             }
             let mut b = a.clone();
+            if c.blocks_after % 2 == 1 {
+                // Clone::clone_from into a core at another position
+                let mut t = <$Core>::from_seed(seed);
+                let mut rt = <$Core as BlockRngCore>::Results::default();
+                for _ in 0..(c.blocks_before + 3) {
+                    t.generate(&mut rt);
+                }
+                t.clone_from(&a);
+                b = t;
+            }
             let mut crafted = false;
             if let Some((field, delta)) = c.craft {
                 if let Some(nb) = $serde(&a, field, delta) {
@@ -348,8 +403,8 @@ pub fn def(ctx: &Ctx) -> PropDef {
             format!("clone/{}", ty.name()),
             t.pick(4000, 400_000),
             move || {
-                (gens::det_spec(ty, true), gens::pre_advance(&info), gens::ops(&info, hl, 600, true), gens::ops(&info, hl, 600, true))
-                    .prop_map(|(spec, pre, hist, cont)| CloneCase { spec, pre, hist, cont })
+                (gens::det_spec(ty, true), gens::pre_advance(&info), gens::ops(&info, hl, 600, true), gens::ops(&info, hl, 600, true), proptest::option::weighted(0.35, gens::ops(&info, 6, 300, true)))
+                    .prop_map(|(spec, pre, hist, cont, into_existing)| CloneCase { spec, pre, hist, cont, into_existing })
                     .boxed()
             },
             check_clone,
@@ -425,6 +480,32 @@ pub fn def(ctx: &Ctx) -> PropDef {
                     .collect()
             },
             check_pair,
+        ));
+    }
+    // all 1- and 2-bit seed differences of one base seed: a == b must imply the same future
+    // (a hand-written == that cancels two words is only hit by correlated differences)
+    for ty in Ty::ALL {
+        let info = ty.info();
+        if !info.eq {
+            continue;
+        }
+        let nbits = info.seed_len * 8;
+        let seed = ctx.seed;
+        subs.push(crate::engine::ESub::boxed(
+            format!("seed-bit-pairs/{}", ty.name()),
+            (nbits * nbits) as u64,
+            move || {
+                let mut z = crate::engine::mix_seed(seed, &format!("C10/bitpairs/{}", ty.name())) | 1;
+                let bytes: Vec<u8> = (0..nbits / 8).map(|_| { z ^= z << 13; z ^= z >> 7; z ^= z << 17; (z >> 24) as u8 }).collect();
+                let mut v = Vec::new();
+                for i in 0..nbits {
+                    for j in i..nbits {
+                        v.push(BitPairCase { ty, base: gens::Seed { class: "base".into(), bytes: bytes.clone() }, i, j });
+                    }
+                }
+                v
+            },
+            check_bit_pair,
         ));
     }
     subs.push(PSub::boxed(
